@@ -165,6 +165,12 @@ func (g G) drawIDP(o worldOpts) IDPCfg {
 		hard := g.chance("idp.orgHard", o.hardPct)
 		if g.chance("idp.org", 40) {
 			c.Org = &OrgCfg{Name: g.text("idp.org.name", "Org", hard), DisplayName: g.text("idp.org.dn", "Display", hard), URL: "https://org.example/" + g.text("idp.org.url", "u", false)}
+			switch g.weighted("idp.org.empty", 80, 10, 10) {
+			case 1:
+				c.Org.URL = ""
+			case 2:
+				c.Org.DisplayName = ""
+			}
 		}
 		if g.chance("idp.contact", 40) {
 			c.Contact = &ContactCfg{Type: g.pick("idp.ct", "technical", "support", "administrative"), Company: g.text("idp.c.co", "Co", hard), GivenName: g.text("idp.c.gn", "Gn", hard),
@@ -192,7 +198,7 @@ func (g G) drawSP(i int, o worldOpts, hardURL bool) SPCfg {
 	c := SPCfg{Entity: base + "/metadata", AppID: "app-" + mk, Key: KeySP0 + mod(i, 4), HasCert: true, CertUse: "signing"}
 	q := ""
 	if hardURL {
-		q = g.pick(fmt.Sprintf("sp%d.q", i), "?a=1&b=2", "?x=<y>", `?q="v"`, "?r=a%20b+c", "?ü=é", "?t='s'")
+		q = g.pick(fmt.Sprintf("sp%d.q", i), "?a=1&b=2", "?x=<y>", `?q="v"`, "?r=a%20b+c", "?ü=é", "?t='s'", "?", "?a=1&b=2#frag")
 		if g.chance(fmt.Sprintf("sp%d.entq", i), 50) {
 			c.Entity += q
 		}
@@ -268,6 +274,9 @@ func (g G) drawUser(i int, o worldOpts, hard bool) UserCfg {
 	mk := userMarker(i)
 	u := UserCfg{ID: "uid-" + mk, LoginName: "login-" + mk + "@example.org"}
 	lab := fmt.Sprintf("u%d.", i)
+	if g.chance(lab+"bare", 6) {
+		return u // an account without any profile data: the storage sets no attribute at all
+	}
 	if g.chance(lab+"email", 85) {
 		u.Email = g.text(lab+"emailv", mk+"@mail.example", hard)
 	}
@@ -292,6 +301,12 @@ func (g G) drawUser(i int, o worldOpts, hard bool) UserCfg {
 	if o.customAttrs {
 		n := g.intn(lab+"ncustom", 4)
 		for k := 0; k < n; k++ {
+			if g.chance(fmt.Sprintf("%sc%d.std", lab, k), 8) {
+				// a custom attribute that carries the name of one of the standard attributes (its own name format or the same)
+				u.Custom = append(u.Custom, CustomAttrCfg{Name: g.pick(fmt.Sprintf("%sc%d.stdn", lab, k), "Email", "SurName", "FirstName", "FullName", "UserName", "UserID"),
+					Format: g.pick(fmt.Sprintf("%sc%d.stdf", lab, k), "", nfBasic, "urn:oasis:names:tc:SAML:2.0:attrname-format:uri"), Values: []string{fmt.Sprintf("custom%d-%s", k, mk)}})
+				continue
+			}
 			ca := CustomAttrCfg{Name: g.text(fmt.Sprintf("%sc%d.name", lab, k), fmt.Sprintf("attr%d-%s", k, mk), hard),
 				Friendly: g.pick(fmt.Sprintf("%sc%d.fr", lab, k), "", "Friendly "+mk),
 				Format:   g.pick(fmt.Sprintf("%sc%d.fmt", lab, k), "", "urn:oasis:names:tc:SAML:2.0:attrname-format:basic", "urn:oasis:names:tc:SAML:2.0:attrname-format:uri")}
@@ -371,7 +386,7 @@ func (g G) drawStyle(label string) Style {
 		s.TextForm = g.rng(label+".textFormK", 1, 4)
 	}
 	if g.chance(label+".b64Lines", 20) {
-		s.B64Lines = g.rng(label+".b64LinesK", 1, 2)
+		s.B64Lines = g.rng(label+".b64LinesK", 1, 4)
 	}
 	s.BodyAndURL = g.chance(label+".bodyAndURL", 15)
 	if g.chance(label+".ct", 30) {
@@ -399,6 +414,16 @@ func (g G) drawSSO(label string, w *WorldCfg, sp int) *MsgSpec {
 	if g.chance(label+".relay", 70) {
 		m.HasRelay = true
 		m.RelayState = g.text(label+".relayv", "relay"+strings.TrimPrefix(strings.SplitN(m.ID, "kx", 2)[0], "_")+"kx", false)
+	}
+	if m.HasRelay {
+		switch g.weighted(label+".relaylen", 86, 6, 4, 4) {
+		case 1:
+			m.RelayState = padTo(m.RelayState, 80) // exactly the 80 bytes the bindings allow
+		case 2:
+			m.RelayState = padTo(m.RelayState, 79)
+		case 3:
+			m.RelayState = padTo(m.RelayState, g.pick2(label+".relaylong", 81, 200, 9000, 12000)) // longer than the bindings allow: not conformant, delivered all the same by many SPs
+		}
 	}
 	m.DestMode = g.pick(label+".dest", "advertised", "advertised", "absent")
 	if g.chance(label+".protobind", 35) && len(c.ACS) > 0 {
@@ -612,3 +637,15 @@ func drawPlan(t *rapid.T, prop, family string) *Plan {
 }
 
 var _ = strings.TrimSpace
+
+// padTo extends s to exactly n bytes with a repeating, poorly compressible tail.
+func padTo(s string, n int) string {
+	const tail = "0123456789abcdefghijklmnopqrstuvwxyzABCDEFGHIJKLMNOPQRSTUVWXYZ-_.~"
+	for i := 0; len(s) < n; i++ {
+		s += string(tail[(i*7+len(s))%len(tail)])
+	}
+	if len(s) > n && n > 0 {
+		s = s[:n]
+	}
+	return s
+}
